@@ -84,13 +84,13 @@ func (c *Ctx) Expired() bool {
 
 func (c *Ctx) Cap(why string) { c.R.Exhaustive = false; c.R.Capped = why }
 
-func (c *Ctx) Eval()           { c.R.Evaluations++ }
-func (c *Ctx) Trans(n int)     { c.R.Transitions += int64(n) }
-func (c *Ctx) Trace()          { c.R.Traces++ }
-func (c *Ctx) Nontrivial()     { c.R.Nontrivial++ }
-func (c *Ctx) Inc(k string)    { c.R.Extra[k]++ }
+func (c *Ctx) Eval()                 { c.R.Evaluations++ }
+func (c *Ctx) Trans(n int)           { c.R.Transitions += int64(n) }
+func (c *Ctx) Trace()                { c.R.Traces++ }
+func (c *Ctx) Nontrivial()           { c.R.Nontrivial++ }
+func (c *Ctx) Inc(k string)          { c.R.Extra[k]++ }
 func (c *Ctx) Add(k string, n int64) { c.R.Extra[k] += n }
-func (c *Ctx) Bound(k, v string) { c.R.Bounds[k] = v }
+func (c *Ctx) Bound(k, v string)     { c.R.Bounds[k] = v }
 
 // State records a canonical model state (deduplicated inside the shard).
 func (c *Ctx) State(key string) bool {
